@@ -64,7 +64,7 @@ func init() {
 }
 
 func c02Generate(c *mon.Ctx) {
-	concBatches(c, c.N(6, 300), func(seed uint64) any { return &c02Case{Conc: seed} })
+	concBatches(c, c.NConc(6, 300), func(seed uint64) any { return &c02Case{Conc: seed} })
 
 	pool := gen.NewPool(c.SharedRng("pool"), 8)
 	sr := c.SharedRng("structured")
@@ -296,7 +296,7 @@ func c02Generate(c *mon.Ctx) {
 	})
 
 	// and again at the end of the shard, when the process has a history behind it
-	concBatches(c, c.N(4, 200), func(seed uint64) any { return &c02Case{Conc: seed + 50000} })
+	concBatches(c, c.NConc(4, 200), func(seed uint64) any { return &c02Case{Conc: seed + 50000} })
 }
 
 func c02Guard(c *mon.Ctx) *mon.Guard {
